@@ -252,14 +252,14 @@ theorem stringLit_text_eq {kw : List (Str × TK)} {s s' : Str} {ts ts' : List (T
   simp only [List.cons.injEq, true_and] at hsp
   exact (List.append_cancel_right hsp).symm
 
-/-- **from text to tokens**: the token lists of two texts related by `RCA` that have the same
+/-- **from text to tokens**: the token lists of two texts related by `RC` that have the same
     string literals, the same text in poetic string literals and the same capitalisation of word
     tokens are related in the sense of the parser simulation -/
 theorem toksRel_of_text (laws : AsciiLaws)
     (hparse : ∀ t t' : Str, RC t t' → (NumOps.parse t' : Option N) = NumOps.parse t)
     {kw : List (Str × TK)}
     (hkw : ∀ e ∈ kw, e.2 ≠ .newline ∧ e.2 ≠ .number ∧ e.2 ≠ .stringLit ∧ e.2 ≠ .comment)
-    {s s' : Str} (hlen : ulen s < 2 ^ 32) (hrca : RCA s s')
+    {s s' : Str} (hlen : ulen s < 2 ^ 32) (hrca : RC s s')
     {ts ts' : List (Tok N)} (hlex : lexAll kw s = .ok ts) (hlex' : lexAll kw s' = .ok ts')
     (hstr : ∀ t ∈ ts, t.kind = .stringLit →
       substr s' t.start (t.start + ulen t.spelling) = some t.spelling)
@@ -269,7 +269,7 @@ theorem toksRel_of_text (laws : AsciiLaws)
     (hcap : ∀ (i : Nat) (h : i < ts.length) (h' : i < ts'.length), ts[i].kind = .word →
       ts'[i].spelling.head?.map isUppercase = ts[i].spelling.head?.map isUppercase) :
     F2 TokRel ts ts' ∧ ToksRel s s' (skipComments ts) (skipComments ts') := by
-  have hl : ulen s' = ulen s := hrca.rc.ulen
+  have hl : ulen s' = ulen s := hrca.ulen
   have hlen' : ulen s' < 2 ^ 32 := by rw [hl]; exact hlen
   have hraw : F2 TokRel ts ts' := by
     have := lexAll_rel (N := N) laws hparse kw hrca
